@@ -593,6 +593,56 @@ def shared_consumption_probe(rep):
         both("zip(range(%d), handle)" % k, lambda h: a.zip(range(k), h), lambda s_: zip(range(k), s_))
         both("batched(2) first %d" % k, lambda h: a.islice(a.batched(h, 2), k), lambda s_: it_.islice(it_.batched(s_, 2), k))
         both("pairwise first %d" % k, lambda h: a.islice(a.pairwise(h), k), lambda s_: it_.islice(it_.pairwise(s_), k))
+    # groupby on the shared handle: advance to a later group, poll an earlier (stale) group, read some of the live one:
+    # the next tool continues exactly where itertools.groupby leaves a shared iterator
+
+    def keyf(x):
+        return x // 2
+    for script in ([("adv",), ("adv",), ("grp", 0)], [("adv",), ("grp", 0), ("adv",), ("grp", 0), ("grp", 1)], [("adv",), ("adv",), ("adv",), ("grp", 1), ("grp", 0)],
+                   [("adv",), ("grp", 0), ("grp", 0), ("grp", 0)], [("adv",), ("adv",), ("grp", 1), ("grp", 0), ("grp", 1)],
+                   [("adv",), ("adv",), ("grp", 1), ("grp", 0)], [("adv",), ("adv",), ("grp", 1), ("grp", 1), ("grp", 0), ("grp", 0)],
+                   [("adv",), ("grp", 0), ("adv",), ("grp", 1), ("grp", 0), ("adv",), ("grp", 1)]):
+        async def run_a(script=script):
+            async with a.scoped_iter(list(range(N))) as h:
+                gb = a.groupby(h, key=keyf)
+                groups, obs = [], []
+                for op in script:
+                    try:
+                        if op[0] == "adv":
+                            k_, g = await gb.__anext__()
+                            groups.append(g)
+                            obs.append(("key", k_))
+                        else:
+                            obs.append(("item", await groups[op[1]].__anext__()))
+                    except StopAsyncIteration:
+                        obs.append("stop")
+                rest = [x async for x in h]
+            return obs, rest
+
+        def run_s(script=script):
+            shared = iter(range(N))
+            gb = it_.groupby(shared, key=keyf)
+            groups, obs = [], []
+            for op in script:
+                try:
+                    if op[0] == "adv":
+                        k_, g = next(gb)
+                        groups.append(g)
+                        obs.append(("key", k_))
+                    else:
+                        obs.append(("item", next(groups[op[1]])))
+                except StopIteration:
+                    obs.append("stop")
+            return obs, list(shared)
+        try:
+            got = drive(run_a())
+        except BaseException as e:  # noqa
+            got = "raised %r" % (e,)
+        want = run_s()
+        rep.count(("shared-consumption", "groupby", repr(script)), True)
+        if got != want:
+            fails += 1
+            rep.violation("scoped:shared-consumption", {"tool": "groupby %r" % (script,), "why": "(observations, what is left for the next tool): asyncstdlib %r, itertools on a shared iterator %r" % (got, want)})
     return fails
 
 
